@@ -32,7 +32,8 @@ TRUSTED = ['A1 float == real; A2 object arrays == float arrays',
            'chain rule: d/dt f(x0 + t u) at 0 == grad f(x0).u (mathematics)']
 ASSUMPTIONS = ['steps positive; step ratio 1/q with q in (0,1); moment matrix non-singular']
 NOT_DECIDED = ['accuracy envelope for nonlinear maps (C01/C02)']
-BOUNDED = ['integer-x: integer-typed x (3 concrete x, 5 methods) compared with float x -- executed with the real numpy, not proved',
+BOUNDED = ['view-returning-f: Jacobians of 7 affine functions that return (views of) their argument, all methods and orders, executed with the real numpy (aliasing between the value returned by f and internal work vectors is invisible to object arrays) -- not proved',
+           'integer-x: integer-typed x (3 concrete x, 5 methods) compared with float x -- executed with the real numpy, not proved',
            'dimensions enumerated: quick n,m <= 3, k <= 2; thorough n in 1..8, m in 1..6, k in 1..4 (the property\'s range)']
 QUANTIFIED = 'A, b, x, per-coordinate steps h_j, q: universally quantified reals'
 
@@ -61,6 +62,7 @@ def groups(tier):
         out.append(('jac[%s]' % method, ('jac', method, dims(tier), [2, 4] if method in ('central', 'forward', 'complex') else [2])))
     out.append(('directionaldiff', ('dd',)))
     out.append(('integer-x', ('intx',)))
+    out.append(('view-returning-f', ('views',)))
     out.append(('gradient-layout', ('layout',)))
     return out
 
@@ -392,7 +394,16 @@ def run_layout():
     return {}
 
 
+def run_views():
+    import numdifftools as nd
+    from ndvc.concrete import jacobian_view_cases
+    cnt, bad = jacobian_view_cases(nd)
+    solve.fact('Jacobian-of-functions-returning-views-of-their-argument(identity,slices,reshape)[%d cases]' % cnt, not bad, kind='bounded', note=str(bad[:2])[:400])
+    return {}
+
 def run_group(args):
+    if args[0] == 'views':
+        return run_views()
     if args[0] == 'layout':
         return run_layout()
     if args[0] == 'intx':
@@ -403,6 +414,8 @@ def run_group(args):
 
 
 def replay_case(ob):
+    if ob['name'].startswith('view-returning-f/'):
+        return dict(kind='C03.views')
     import re
     nm = ob['name']
     if nm.startswith('gradient-layout/'):
